@@ -280,7 +280,7 @@ def step (line : String) : String :=
       let ss := schedules (tier = "thorough") (seed.toNat?.getD 1)
       "\n".intercalate ((ss.map fun s => "S " ++ ",".intercalate (s.map labelTok)) ++ ["END"])
     | _ => "END"
-  else if op.startsWith "#" then "-\t-\t-" else
+  else if op.startsWith "#" || op.startsWith "life " then "-\t-\t-" else   -- (`life`: an op of the other stream of C08, in a replay file)
   match fields op with
   | ["sched", lbls] =>
     match parseLabels lbls with
